@@ -18,8 +18,14 @@
    literals (the one regex typeshare prints is constant text whose brackets balance as code);
    `${..}` inside template literals; Swift `#"raw"#` strings; line continuations.
 
-   This file never calls the back-end models.  The finding classes of the unchanged tree are
-   decided on the IR ([parsed], a type only). *)
+   Besides the lexers the file defines what the check evaluates (all extracted):
+     dom_C10 l pd         the shape of names, keys, docs and verbatim text the property quantifies over;
+     known_C10 l pkg pd   the finding classes of the unchanged tree, decided on the IR ([parsed], a type only);
+     good_C10_lex / c10_lex   the judgement of one output file (with the place of the first error);
+     good_C10_kw, good_C10_swift_labels   the promised keyword escapes, over the observation of Model/Lang/Decl.v.
+   (The grammar recogniser for TypeScript is in Spec/C10TsGrammar.v.)
+
+   This file never calls the back-end models. *)
 From Coq Require Import String.
 From TS Require Import Model.Str Model.Types Model.Parse Model.Lang.Decl.
 
